@@ -249,6 +249,36 @@ func c19Exhaustive(n int, modes []string, ends []string) []*txCase {
 	return out
 }
 
+// c19Curated is a fixed set of sequences run in both tiers: together they put every command
+// class (BEGIN inside a transaction, COMMIT, ROLLBACK, autocommit switches, savepoint
+// statements, sharded / unsharded statements, field list, ping, quit, disconnect) into a
+// transaction holding two connections, into a single-connection transaction and outside
+// any transaction, with and without keep-session.
+func c19Curated() []*txCase {
+	seqs := [][]string{
+		{"begin", "ws2", "ru", "sp", "rbsp", "relsp", "commit", "quit"},
+		{"ac0", "ws2", "ru", "commit", "ws1", "ac1", "quit"},
+		{"begin", "ws2", "fl", "rollback", "quit"},
+		{"start", "ru", "begin", "ws1", "rollback", "quit"},
+		{"ws2", "ru", "fl", "ping", "wg", "quit"},
+		{"ac0", "ru", "ws1", "ac1", "ru", "quit"},
+		{"begin", "ws2", "ping", "disc"},
+		{"ac0", "ru", "disc"},
+		{"begin", "ws0", "ws1", "quit"},
+	}
+	var out []*txCase
+	for _, m := range []string{"p", "k"} {
+		for _, ops := range seqs {
+			c := &txCase{Mode: m, Users: []string{"rw"}}
+			for _, o := range ops {
+				c.Steps = append(c.Steps, txStep{Op: o})
+			}
+			out = append(out, c)
+		}
+	}
+	return out
+}
+
 func c19Random(r *kit.Rand, n, maxLen int) []*txCase {
 	var out []*txCase
 	for i := 0; i < n; i++ {
@@ -436,11 +466,12 @@ func TestVerif_C19(t *testing.T) {
 		ex := c19Exhaustive(3, []string{"p", "k"}, []string{"quit"})
 		ex = append(ex, c19Exhaustive(2, []string{"p", "k"}, []string{"disc"})...)
 		r := kit.SubRand(seed, "C19/pick")
-		for _, i := range r.Perm(len(ex))[:70] {
+		for _, i := range r.Perm(len(ex))[:45] {
 			base = append(base, ex[i])
 		}
-		base = append(base, c19Random(kit.SubRand(seed, "C19/random"), 45, 5)...)
+		base = append(base, c19Random(kit.SubRand(seed, "C19/random"), 25, 5)...)
 	}
+	base = append(base, c19Curated()...)
 	rec.Set("sequences", len(base))
 
 	// phase 1: fault-free runs
